@@ -93,34 +93,34 @@ vproof!(c05_subpacket_len_encode, 8, {
 });
 
 // ---- StringToKey specifier (RFC 9580 3.7.1) ----
-/// every N-octet string: parse; re-serialise == the consumed prefix; write_len truthful; parses back equal
-fn s2k_case<const N: usize>() {
-    let b: [u8; N] = kani::any();
+/// S2K specifier with type octet T (concrete per instance: CBMC merges the parser's arms into a symbolic
+/// variant otherwise and then explores every arm of the serialiser) followed by N-1 arbitrary octets:
+/// parse; re-serialise == the consumed prefix; write_len truthful; parses back equal.
+fn s2k_case<const T: u8, const N: usize>() {
+    let mut b: [u8; N] = kani::any();
+    b[0] = T;
     let mut rd = &b[..];
     let r = okf(StringToKey::try_from_reader(&mut rd));
     let used = N - rd.len();
     // sizes fixed by the RFC for the known types
-    let need = match b[0] {
+    let need = match T {
         0 => 2,
         1 => 10,
         3 => 11,
         4 => 20,
         _ => N, // reserved / private / unknown types swallow the rest
     };
-    kani::cover!(b[0] == 3 && N >= 11);
-    kani::cover!(b[0] == 4 && N >= 20);
-    kani::cover!(b[0] == 101);
     match r {
         None => assert!(N < need, "C05: S2K specifier with enough octets rejected"),
         Some(s) => {
             assert!(N >= need, "C05: truncated S2K specifier accepted");
             assert!(used == need, "C05: S2K parser consumed a wrong number of octets");
-            assert!(s.id() == b[0], "C05: S2K type octet not preserved");
+            assert!(s.id() == T, "C05: S2K type octet not preserved");
             let mut w = FixW::<24>::new();
             assert!(is_okf(s.to_writer(&mut w)), "C05: serialising a parsed S2K failed");
             assert!(w.len == s.write_len(), "C05: StringToKey::write_len != octets written");
             assert!(w.len == used && eq_n(&w.buf, &b, used), "C05: S2K specifier does not re-serialise identically");
-            match okf(StringToKey::try_from_reader(&w.buf[..w.len])) {
+            match okf(StringToKey::try_from_reader(&w.buf[..used])) {
                 Some(s2) => assert!(s2 == s, "C05: S2K specifier does not parse back to an equal value"),
                 None => assert!(false, "C05: serialised S2K rejected"),
             }
@@ -128,17 +128,28 @@ fn s2k_case<const N: usize>() {
         }
     }
 }
-vproof!(c05_s2k_roundtrip_2, 6, { s2k_case::<2>() });
-vproof!(c05_s2k_roundtrip_11, 6, { s2k_case::<11>() });
-vproof!(c05_s2k_roundtrip_20, 6, { s2k_case::<20>() });
-vproof!(c05_s2k_roundtrip_9, 6, { s2k_case::<9>() });
+vproof!(c05_s2k_simple, 6, { s2k_case::<0, 2>() });
+vproof!(c05_s2k_simple_trunc, 6, { s2k_case::<0, 1>() });
+vproof!(c05_s2k_salted, 6, { s2k_case::<1, 10>() });
+vproof!(c05_s2k_salted_trunc, 6, { s2k_case::<1, 9>() });
+vproof!(c05_s2k_iterated, 6, { s2k_case::<3, 11>() });
+vproof!(c05_s2k_iterated_trunc, 6, { s2k_case::<3, 10>() });
+vproof!(c05_s2k_argon2, 6, { s2k_case::<4, 20>() });
+vproof!(c05_s2k_argon2_trunc, 6, { s2k_case::<4, 19>() });
+vproof!(c05_s2k_reserved, 6, { s2k_case::<2, 4>() });
+vproof!(c05_s2k_private_100, 6, { s2k_case::<100, 4>() });
+vproof!(c05_s2k_private_110, 6, { s2k_case::<110, 3>() });
+vproof!(c05_s2k_other_111, 6, { s2k_case::<111, 3>() });
+vproof!(c05_s2k_other_5, 6, { s2k_case::<5, 4>() });
+vproof!(c05_s2k_other_255, 6, { s2k_case::<255, 2>() });
 
 // ---- MPI (RFC 9580 3.2) ----
-/// 2-octet bit count + magnitude.  Bit counts up to 32 (the arithmetic (bits+7)>>3 is width-independent).
-fn mpi_case<const N: usize>() {
-    let b: [u8; N] = kani::any();
-    let bits = u16::from_be_bytes([b[0], b[1]]);
-    kani::assume(bits <= 32);
+/// 2-octet bit count BITS (concrete per instance) + arbitrary magnitude octets, total N octets.
+fn mpi_case<const BITS: u16, const N: usize>() {
+    let mut b: [u8; N] = kani::any();
+    b[0] = (BITS >> 8) as u8;
+    b[1] = BITS as u8;
+    let bits = BITS;
     let nbytes = ((bits as usize) + 7) / 8;
     let mut rd = &b[..];
     let r = okf(Mpi::try_from_reader(&mut rd));
@@ -180,12 +191,14 @@ fn mpi_case<const N: usize>() {
             } else {
                 b[2] != 0 && bits == (nbytes * 8) as u16 - b[2].leading_zeros() as u16
             };
-            kani::cover!(canonical && nbytes == 2);
-            kani::cover!(!canonical && z > 0, "leading zero octet");
+            if nbytes > 0 {
+                kani::cover!(canonical, "canonical MPI");
+                kani::cover!(!canonical && z > 0, "leading zero octet");
+            }
             if canonical {
                 assert!(w.len == used && eq_n(&w.buf, &b, used), "C05: canonical MPI does not re-serialise identically");
             }
-            match okf(Mpi::try_from_reader(&w.buf[..w.len])) {
+            match okf(Mpi::try_from_reader(&w.buf[..])) {
                 Some(m2) => assert!(m2 == m, "C05: MPI does not parse back to an equal value"),
                 None => assert!(false, "C05: serialised MPI rejected"),
             }
@@ -193,8 +206,15 @@ fn mpi_case<const N: usize>() {
         }
     }
 }
-vproof!(c05_mpi_roundtrip_4, 8, { mpi_case::<4>() });
-vproof!(c05_mpi_roundtrip_6, 8, { mpi_case::<6>() });
+vproof!(c05_mpi_bits0, 8, { mpi_case::<0, 3>() });
+vproof!(c05_mpi_bits1, 8, { mpi_case::<1, 4>() });
+vproof!(c05_mpi_bits8, 8, { mpi_case::<8, 4>() });
+vproof!(c05_mpi_bits9, 8, { mpi_case::<9, 4>() });
+vproof!(c05_mpi_bits16, 8, { mpi_case::<16, 5>() });
+vproof!(c05_mpi_bits17, 8, { mpi_case::<17, 5>() });
+vproof!(c05_mpi_bits17_trunc, 8, { mpi_case::<17, 4>() });
+vproof!(c05_mpi_bits32, 8, { mpi_case::<32, 6>() });
+vproof!(c05_mpi_bits16385, 8, { mpi_case::<16385, 4>() });
 
 /// Mpi::from_slice strips leading zeros and serialises with the exact bit length
 vproof!(c05_mpi_from_slice_3, 8, {
